@@ -137,7 +137,8 @@ func RunDiff(t *testing.T, d *DiffIn, keepLog bool) *Result {
 			add("preview-changes-response", fmt.Sprintf("request %s: with previews %s, without %s", o.Name, o.outcomeOrUnanswered(), b.outcomeOrUnanswered()), "kind="+o.Op.Kind)
 			continue
 		}
-		if o.Tx != nil || b.Tx != nil {
+		// (only answered requests: what a zombie of a crashed process leaves in its record is not a response)
+		if (o.Tx != nil || b.Tx != nil) && o.Returned && b.Returned {
 			if dd := txDiff(o.Tx, b.Tx); dd != "" {
 				add("preview-changes-response", fmt.Sprintf("request %s returns a different transaction once previews are inserted: %s", o.Name, dd), "kind="+o.Op.Kind)
 			}
